@@ -49,6 +49,7 @@ pub struct Out {
     pub kinds: std::collections::BTreeSet<String>,
     pub violations: Vec<String>,
     pub sample: Vec<String>,
+    pub fault: [u64; 4],
 }
 
 fn m1(x: u64) -> u64 {
@@ -244,6 +245,7 @@ pub fn main(a: &[String]) {
         kinds: Default::default(),
         violations: vec![],
         sample: vec![],
+        fault: [0; 4],
     };
     let t0 = std::time::Instant::now();
     for round in 0..rounds {
@@ -341,9 +343,13 @@ pub fn main(a: &[String]) {
         spawn_faults(&mut o, &prop, seed);
     }
     let json = format!(
-        "{{\"prop\":\"{}\",\"seed\":{},\"n\":0,\"cases_count\":{},\"cases\":[{}],\"sample\":[{}],\"violations\":[{}],\"wall_s\":{:.2}}}",
+        "{{\"prop\":\"{}\",\"seed\":{},\"n\":0,\"fault_runs\":{},\"fault_fired\":{},\"fault_panic_propagated\":{},\"fault_correct_result\":{},\"cases_count\":{},\"cases\":[{}],\"sample\":[{}],\"violations\":[{}],\"wall_s\":{:.2}}}",
         prop,
         seed,
+        o.fault[0],
+        o.fault[1],
+        o.fault[2],
+        o.fault[3],
         o.cases,
         o.kinds.iter().map(|s| format!("{:?}", s)).collect::<Vec<_>>().join(","),
         o.sample.iter().map(|s| format!("{:?}", s)).collect::<Vec<_>>().join(","),
@@ -872,6 +878,7 @@ fn spawn_faults_inner(o: &mut Out, prop: &str, seed: u64) {
             }
         }
     }
+    o.fault = [runs, fired_runs, panicked, correct_despite_fault];
     o.sample.push(format!(
         "thread-creation faults: {} runs, the fault fired in {} of them ({} propagated a panic, {} returned the correct result nevertheless)",
         runs, fired_runs, panicked, correct_despite_fault
